@@ -11,6 +11,7 @@ import Nlmodel.Proofs.Lemmas.EmitSize
 import Nlmodel.Model.Pipeline
 import Nlmodel.Proofs.Lemmas.SimCtlProg
 import Nlmodel.Proofs.Lemmas.SimFnAll
+import Nlmodel.Proofs.Lemmas.Sim6Body
 namespace Nl
 namespace C11
 open Spec
@@ -171,6 +172,21 @@ theorem C11_no_residue_in_function_bodies (W : SimF.World) (hW : SimF.WOK W) (f 
     (hcode : Sim.CodeAt W.C pos (emitE e pos lp cs).1) (hpool : Sim.PoolOK W.s0.cvals (emitE e pos lp cs).2) :
     SimF.GoalV W (SimF.bigScope fn Γ Γx) Λ nl below fr fn ab lp pos locs ops g l (pos + sizeE e) ops st (evalE f e st) :=
   (SimF.pall hW f).e nl fn Γ Γx Λ ab e hx st pos lp cs below fr locs ops g l hsc hinv hcode hpool
+
+/-- NO RESIDUE, WITH HEAP VALUES AND CALLS (stage 6): for ANY expression of the stage-6 fragment — in particular an
+    `als`/`anders` chain or a `zolang` loop whose branches, condition and body allocate, call functions that allocate and
+    collect, index and mutate arrays and strings — started in any frame on ANY operand stack `c.ops`: a definitional value is
+    matched by the machine reaching the END of the expression's code with exactly one related value pushed on the SAME
+    operands (`c.ops.push mv`) whatever the number of iterations; `stop`/`volgende` by the loop's exit/head with `null`
+    pushed; `antwoord` by a return to the caller's frame; an error by the same error after the same output.
+    Instance of `Sim6.pall6`. -/
+theorem C11_no_residue_with_heap_values_and_calls (W : Sim6.World) (hW : Sim6.WOK6 W) (f : Nat) (nl : Nat) (fn : Bool)
+    (Γ Γx Λ : Sim.Gam) (ab : Bool) (e : RExpr) (hx : Sim6.ZE nl fn Γ Λ ab e)
+    (c : Sim6.Cfg) (lp : LoopCtx) (cs : List Const) (below : Array Value) (fr : List Frame)
+    (hsc : Sim6.Sc6 W fn Γ Γx Λ) (hinv : Sim6.Inv6 W (SimF.bigScope fn Γ Γx) Λ nl c) (hwt : TI.WT (c.vm W below fr))
+    (hcode : Sim.CodeAt W.C c.ip (emitE e c.ip lp cs).1) (hpool : Sim.Ext (emitE e c.ip lp cs).2 W.CS) :
+    Sim6.GoalV6 W (SimF.bigScope fn Γ Γx) Λ nl below fr fn ab lp c (c.ip + sizeE e) c.ops (Spec.evalE f e c.st) :=
+  (Sim6.pall6 hW f).e nl fn Γ Γx Λ ab e hx c lp cs below fr hsc hinv hwt hcode hpool
 
 end C11
 end Nl
